@@ -716,10 +716,15 @@ fn run_c02(ctx: &mut Ctx, rng: &mut Rng, seeds: &[Vec<u8>], n_valid: u64, n_mut:
         } else {
             rng.pick(seeds).clone()
         };
-        let cuts: Vec<usize> = if all_cuts || r.len() <= 2048 {
+        // every cut of responses up to 4 KiB (thorough) / 2 KiB (quick); beyond that a sample of cuts:
+        // all prefixes of a 64 KiB response would be 64 Ki x 64 KiB of model traffic per response
+        let cuts: Vec<usize> = if r.len() <= (if all_cuts { 4096 } else { 2048 }) {
             (0..r.len()).collect()
         } else {
-            (0..400).map(|_| rng.usize(r.len())).collect()
+            let mut c: Vec<usize> = (0..(if all_cuts { 3000 } else { 400 })).map(|_| rng.usize(r.len())).collect();
+            c.extend((0..std::cmp::min(r.len(), 300)).map(|k| k));
+            c.extend((r.len().saturating_sub(300)..r.len()).map(|k| k));
+            c
         };
         oracle_c02_prefixes(ctx, &r, &cuts, "valid");
         for x in &conts {
